@@ -197,6 +197,7 @@ def run(ctx: core.Ctx):
                                      got.tolist(), [None if v.size == 0 else float(v.astype(np.float64).mean()), int(v.size)],
                                      note="pixels equal to the input's nodata are excluded whatever the output dtype; pixels whose zone equals the zone raster's nodata contribute nowhere")
                             break
+    core.acc_dispatch(ctx, ['zonal'])
     ctx.trusted += ["native model driver (Hdc/Model/Discrete.lean)", "harness/props/c16.py oracle (int64 NumPy sums)"]
 
 
